@@ -430,7 +430,7 @@ def gen_dates_tz(tier, rng):
     """the calendar does not depend on where the program runs: the same requests with the process in a time zone whose daylight
        saving switches at MIDNIGHT (the switch-over day has no 00:00 there), for the years around now and a sample of others"""
     out = []
-    years = [2019, 2022, 2023, 2024, 2025] if tier == "quick" else list(range(1990, 2040)) + [1900, 2000, 1, 9999]
+    years = [2019, 2022, 2023, 2024, 2025] if tier == "quick" else list(range(1990, 2040)) + [1900, 2000, 2100, 2400]
     for y in years:
         for m in range(1, 13):
             for d in range(1, dim(y, m) + 1):
@@ -443,7 +443,7 @@ def suites():
               rule="every date of the chosen years (quick: 60 boundary/century/leap/random years; thorough: all 3,652,425 dates of 0000..9999) "
                    "plus day 0 / day n+1 / month 0 / month 13 neighbours; non-trivial = a valid date"),
         Suite("dates-santiago", gen_dates_tz, oracle=oracle_date, project=hash_projection, env={"TZ": "America/Santiago"},
-              rule="every date of 2019, 2022-2025 (thorough: 1990-2039 and four more years) with the harness process running in TZ=America/Santiago (daylight saving starts at midnight); non-trivial = a valid date"),
+              rule="every date of 2019, 2022-2025 (thorough: 1990-2039, 1900, 2000, 2100, 2400) with the harness process running in TZ=America/Santiago (daylight saving starts at midnight); non-trivial = a valid date"),
         Suite("dates-havana", gen_dates_tz, oracle=oracle_date, project=hash_projection, env={"TZ": "America/Havana"},
               rule="the same in TZ=America/Havana"),
         Suite("plus", gen_plus, oracle=oracle_plus, exhaustive=lambda t: False,
